@@ -170,7 +170,7 @@ def judge(chk, sc, step):
 
 
 def run(chk):
-    n = 300 if chk.tier == "quick" else 6000
+    n = 900 if chk.tier == "quick" else 6000
     chk.rule = ("projects with tasks on contexts and modules (required_vars/required_modules/build:false/export/workdir, failing commands) x one "
                 "`laze build <task>` invocation (selection, -m, -k N, -G, task args, ninja exit code) against the real CLI with stand-in ninja and "
                 "sh that log cwd/exports/argv; oracle from the dumped task availability: none runnable => failure, several runnable without -m => "
